@@ -147,7 +147,7 @@ func verifHarness_C06_channel(version int, inKeyed int, outKeyed int) {
 func verifHarness_C08_fix(version int, shape int, keyed int, strlen int) {
 	n := verifBareNode(V2, 1, 1)
 	var key *frame.V2Key
-	if keyed == 1 {
+	if keyed >= 1 {
 		key, _ = verifKey()
 		n.OutKey = key
 	}
@@ -165,6 +165,10 @@ func verifHarness_C08_fix(version int, shape int, keyed int, strlen int) {
 		fr = &frame.V1Frame{SequenceNumber: seq, SystemID: sys, ComponentID: comp, Message: msg, Checksum: stale}
 	} else {
 		f2 := &frame.V2Frame{CompatibilityFlag: compat, SequenceNumber: seq, SystemID: sys, ComponentID: comp, Message: msg, Checksum: stale}
+		if keyed == 2 {
+			// the node has an outgoing key, the received frame is unsigned and stays so: the next hop holds no key
+			key = nil
+		}
 		if keyed == 1 {
 			f2.IncompatibilityFlag = 1
 			f2.SignatureLinkID = verifNondetU8()
@@ -196,6 +200,8 @@ func verifHarness_C08_fix(version int, shape int, keyed int, strlen int) {
 		mp := n.dialectRW.GetMessage(spec.ID())
 		re := mp.Write(got.GetMessage(), version == 2)
 		verifAssert(verifEqBytes(re.Payload, want), "C08/F/next-hop-decodes-edited-message")
+		_, err2 := r2.Read()
+		verifAssert(err2 == io.EOF, "C08/F/nothing-but-the-frame-is-forwarded")
 	}
 	verifReach("C08/F")
 }
